@@ -10,9 +10,11 @@ for sid in sys.argv[1:]:
     try:
         sh("rsync -a --exclude .git --exclude build /repo/ %s/" % r)
         env = dict(os.environ, PYTHONPATH=r, NUMBA_CACHE_DIR=d + "/numba", OMP_NUM_THREADS="4")
+        touches_c = "src/" in open(sd + "/patch.diff").read()
+        # /repo's in-place extension module is a build output that may predate the fix: commits to src/*.c: for changes to C the pristine copy is rebuilt too
+        if touches_c: sh("/venv/bin/python setup.py build_ext --inplace > %s/build0.log 2>&1" % d, cwd=r)
         p0 = sh("/venv/bin/python %s/demo.py" % sd, cwd=d, env=env)
         a = sh("patch -s -p1 < %s/patch.diff" % sd, cwd=r)
-        touches_c = "src/" in open(sd + "/patch.diff").read()
         if touches_c: b = sh("/venv/bin/python setup.py build_ext --inplace > %s/build.log 2>&1" % d, cwd=r)
         p1 = sh("/venv/bin/python %s/demo.py" % sd, cwd=d, env=env)
         t = sh("/venv/bin/python -m pytest -ra -q -p no:cacheprovider --timeout=900 --continue-on-collection-errors --junitxml=%s/j.xml" % d, cwd=r, env=env)
@@ -22,7 +24,7 @@ for sid in sys.argv[1:]:
         lost = sorted(STABLE - ok); tail = [l for l in t.stdout.strip().split("\n") if " passed" in l or " failed" in l][-1:]
         res = dict(what_i_ran="scratch copy of /repo (rsync): demo.py on the pristine copy, patch -p1, %sdemo.py again, full baseline pytest command" % ("setup.py build_ext --inplace, " if touches_c else ""),
                    patch_applied=a.returncode == 0, demo_pristine_exit=p0.returncode, demo_mutated_exit=p1.returncode, suite=(tail or ["?"])[0], stable_tests_lost=lost, touches_c=touches_c)
-        m = json.load(open(sd + "/meta.json")); m["confirmed_by_me"] = res; m.setdefault("author", "independent sub-agent given only the property text and a scratch worktree (round 2)")
+        m = json.load(open(sd + "/meta.json")); m["confirmed_by_me"] = res; m.setdefault("author", "independent sub-agent given only the property text and a scratch worktree (round %s)" % ("3" if sid.endswith("r3") else "2"))
         json.dump(m, open(sd + "/meta.json", "w"), indent=1)
         print(sid, "pristine", p0.returncode, "mutated", p1.returncode, res["suite"], "lost:", len(lost), flush=True)
     finally: shutil.rmtree(d, ignore_errors=True)
